@@ -4,10 +4,10 @@
 exits non-zero on such a patch is a false alarm of the machinery. Writes benign/RESULTS.json."""
 import json, os, subprocess, sys, time
 ROOT = os.path.dirname(os.path.dirname(os.path.abspath(__file__)))
-REPO = "/repo"
+REPO = os.environ.get("BENIGN_REPO", "/repo")  # a scratch worktree of /repo can be used instead of /repo itself
 
 def sh(cmd, cwd=None):
-    p = subprocess.run(cmd, cwd=cwd, stdout=subprocess.PIPE, stderr=subprocess.STDOUT, text=True)
+    p = subprocess.run(cmd, cwd=cwd, stdout=subprocess.PIPE, stderr=subprocess.STDOUT, text=True, env=dict(os.environ, VERIF_REPO=REPO))
     return p.returncode, p.stdout
 
 def main():
